@@ -153,6 +153,23 @@ inline int perm_main() {
     return run::run_sharded([&] {
         long samples = 0;
         for (auto& sp : spaces) {
+            if (sp.kv.count("set")) {
+                // method sets (as in C04) under every record / method order
+                for_each_method_set_registry(sp, [&](const rx::Registry& r) {
+                    if (!run::g_gate.take(r))
+                        return;
+                    COUNT("registries", 1);
+                    if (rx::has_mi(r.po)) {
+                        COUNT("mi_registries", 1);
+                        COUNT("nontrivial", 1);
+                    }
+                    std::vector<Viol> v;
+                    check_perm(r, sp, v);
+                    for (auto& x : v)
+                        run::candidate(x.kind.c_str(), rx::to_text(r), x.detail);
+                });
+                continue;
+            }
             int extra = hx::shape_index("R", sp.k == 1 ? 1 : 0);
             for_each_single_method_registry(sp, [&](const rx::Registry& r0) {
                 if (!run::g_gate.take(r0))
